@@ -62,7 +62,9 @@ static void writer(void *arg)
 		if (WS[i].kind == W_WRITE) {
 			r = qb_rb_chunk_write(R->rb, wbuf, len);
 		} else {
-			unsigned char *d = qb_rb_chunk_alloc(R->rb, len);
+			/* reserve more than is committed afterwards, as the blackbox logger does (room for the longest record,
+			   then the real length): where the next chunk starts is only known at commit time */
+			unsigned char *d = qb_rb_chunk_alloc(R->rb, len + 35);
 			if (!d) r = -errno;
 			else {
 				int32_t c;
@@ -72,7 +74,7 @@ static void writer(void *arg)
 				r = c < 0 ? c : (ssize_t)len;
 			}
 		}
-		vp_log("W: %s(%zu) = %zd", WS[i].kind == W_WRITE ? "write" : "alloc+commit", len, r);
+		vp_log("W: %s(%zu) = %zd", WS[i].kind == W_WRITE ? "write" : "alloc(+35)+commit", len, r);
 		if (r == (ssize_t)len) w_ok[i] = 1;
 		else if (r != -EAGAIN) vp_fail("write of %zu bytes returned %zd (neither success nor -EAGAIN)", len, r);
 		else if (read_early[i]) vp_fail("write #%d reported -EAGAIN but its chunk was returned by a read", i);
